@@ -841,6 +841,14 @@ class PE:
             lo, hi, st = [i.v for i in idx.items]
             if isinstance(lo, int) and lo >= 0 and hi is None and st is None and v.parts and isinstance(v.parts[0], str) and len(v.parts[0]) >= lo:
                 return Tmpl([v.parts[0][lo:]] + list(v.parts[1:]))
+        if isinstance(v, Py) and isinstance(v.obj, type) and (isinstance(idx, Py) or (isinstance(idx, Tup) and all(isinstance(i, Py) for i in idx.items))):
+            # parametrising a standard-library generic class with type objects (dict[str, int])
+            try:
+                key = idx.obj if isinstance(idx, Py) else tuple(i.obj for i in idx.items)
+                r = v.obj[key]
+                return Py(r, str(r).replace("typing.", ""))
+            except Exception:
+                pass
         if isinstance(v, Py):
             return self.sym(f"{v.name}[{show(idx)}]", e, [idx])
         return self.sym(f"{show(v)}[{show(idx)}]", e, [v])
